@@ -191,6 +191,32 @@ CLAIMS = {
          "findings: phase gate after the end, asyncio deferred continuation (6 keys), pending future on duplicate registration, "
          "API after end on a closing transport.",
          "Coq invariants + life-cycle automaton refinement; differential histories with fault injection at every position"),
+ "C03": ("5 C03",
+         "Coq theorems over a schema-language model of all 25 message classes (value universe with ints, strings, bytes, lists, "
+         "string-keyed dicts): generic parse(marshal m) = Ok m for every valid message of every class and every URI validator, "
+         "fields-preserved for all options of all classes, payload-transparency triple, batching framing (JSON 0x18 separator; "
+         "32-bit length prefix) for unbounded batches, BINARY flag. The per-class shape (type code, admissible lengths, options "
+         "tested in parse, keys written in marshal) is re-derived from the Python AST on every run and proved equal to the "
+         "schemas' shape. Differential run: constructed messages (all classes x option subsets x boundary ids x payload shapes) "
+         "through the real JSON/MsgPack/CBOR serializers, batched and unbatched, compared attribute by attribute with the model.",
+         "Partial: json/msgpack/cbor2 byte formats are oracles; UBJSON not installed (bjdata import broken in the sandbox); floats "
+         "opaque. Trusted: hand-written schemas tied by shape translator + differential runs. Known findings: enc_algo lost with "
+         "an empty payload (7 classes).",
+         "Coq proof generic over well-formed schemas + AST shape translator + differential correspondence"),
+ "C08": ("5 C08",
+         "Coq theorems: (identifier part, Props/C08Uri.v) each of the 11 URI/realm/attribute regexes - regenerated from the "
+         "source through the interpreter's own regex parser into a Coq regex AST whose derivative matcher is proved equal to "
+         "its denotation - accepts exactly its declarative WAMP grammar for all strings; check_or_raise_uri/realm/id/extra/"
+         "kwargs accept exactly grammatical strings, ints in 0..2^53 and str-keyed dicts and raise only the library's two "
+         "errors for every value kind. (Schema part, Props/C08.v) every non-protocol exception of Serializer.unserialize is "
+         "characterised (constructor assertion or roles TypeError; totality refuted with the remaining witnesses), strictness "
+         "inversion of accepted messages (ids, URIs, option kinds, counts, type code; refuted at in-option session ids), "
+         "re-marshal equivalence. Differential run: all strings <= 3 (thorough 4) over an 18-symbol alphabet, mutation grid "
+         "(each position/option replaced by 19 boundary values), octet fuzz per serializer, vs model and a spec oracle.",
+         "Trusted: regex2coq translator (re._parser tree -> Coq regex; sre backtracking taken as language membership), schema "
+         "shape translator, CPython type/truthiness/== semantics mirrored. Known findings: 58 keys in 12 families (session ids "
+         "inside options not range-checked, enc_* asserts, Welcome details unvalidated, ...) listed in known_findings.json.",
+         "generated regex AST + Brzozowski derivatives in Coq; schema-language proofs; mutation-grid/octet-fuzz correspondence with spec oracle"),
 }
 NOT_YET = {}
 
